@@ -136,6 +136,17 @@ func c11WalkAt(c *core.Ctx, size int, rto time.Duration, noRetransmit bool, inte
 			}
 		}
 		deadline := last + int64(k+1)*effRTO
+		// ticks while the clock has not moved at all, and half way to the deadline: nothing is due
+		r.tickAt(r.w.VNow())
+		if !check(fmt.Sprintf("tick without clock movement before deadline %d", k)) {
+			return
+		}
+		if half := last + int64(k+1)*effRTO/2; half > r.w.VNow() {
+			r.tickAt(half)
+			if !check(fmt.Sprintf("tick half way to deadline %d", k)) {
+				return
+			}
+		}
 		r.tickAt(deadline - 1)
 		if !check(fmt.Sprintf("tick just before deadline %d", k)) {
 			return
